@@ -129,6 +129,26 @@ pub struct CustomFontD {
     /// StrGlyphMapping string (ranges use the NUL marker syntax of the library)
     pub mapping: String,
     pub replacement: usize,
+    /// ground truth of the mapping: the i-th character has glyph index i (the mapping string is
+    /// derived from this list, the oracles use the list)
+    pub glyph_chars: Vec<char>,
+    /// false: `StrGlyphMapping` over `mapping`; true: a closure `|c| c as usize % glyphs`
+    /// (`GlyphMapping` is implemented for `Fn(char) -> usize`), under which every character is mapped
+    pub closure_mapping: bool,
+}
+
+impl CustomFontD {
+    /// glyph index the font's mapping designates for `c` (harness-side ground truth)
+    pub fn index_of(&self, c: char) -> usize {
+        if self.closure_mapping {
+            c as usize % self.glyph_chars.len()
+        } else {
+            self.glyph_chars.iter().position(|g| *g == c).unwrap_or(self.replacement)
+        }
+    }
+    pub fn is_mapped(&self, c: char) -> bool {
+        self.closure_mapping || self.glyph_chars.contains(&c)
+    }
 }
 
 #[derive(Clone, Debug, PartialEq)]
@@ -417,7 +437,10 @@ impl TextD {
 
 impl CustomFontD {
     pub fn with_font<R>(&self, f: impl FnOnce(&MonoFont<'_>) -> R) -> R {
-        let mapping = StrGlyphMapping::new(&self.mapping, self.replacement);
+        let str_mapping = StrGlyphMapping::new(&self.mapping, self.replacement);
+        let n = self.glyph_chars.len();
+        let fn_mapping = move |c: char| c as usize % n;
+        let mapping: &dyn embedded_graphics::mono_font::mapping::GlyphMapping = if self.closure_mapping { &fn_mapping } else { &str_mapping };
         let image = ImageRaw::<BinaryColor>::new(&self.atlas, Size::new(self.image_w, self.image_h)).expect("custom font atlas length");
         let font = MonoFont {
             image,
@@ -426,7 +449,7 @@ impl CustomFontD {
             baseline: self.baseline,
             strikethrough: DecorationDimensions::new(self.strike.0, self.strike.1),
             underline: DecorationDimensions::new(self.underline.0, self.underline.1),
-            glyph_mapping: &mapping,
+            glyph_mapping: mapping,
         };
         f(&font)
     }
@@ -727,13 +750,53 @@ pub fn gen_custom_font(rng: &mut Rng) -> CustomFontD {
     let image_w = cw * per_row + if rng.chance(1, 3) { rng.u32r(0, cw - 1) } else { 0 };
     let image_h = rows * ch;
     let atlas = rng.bytes(crate::rawmodel::stride(image_w, 1) * image_h as usize);
-    // mapping: first `glyphs` characters starting at 'a', either listed or as a range
-    let last = char::from_u32('a' as u32 + glyphs - 1).unwrap();
-    let mapping = if glyphs >= 3 && rng.chance(1, 2) {
-        format!("\0a{}", last)
-    } else {
-        (0..glyphs).map(|i| char::from_u32('a' as u32 + i).unwrap()).collect()
-    };
+    // mapping: `glyphs` distinct characters. Mostly consecutive from 'a'; 1 in 4 fonts uses several
+    // runs from different scripts (multi-byte, non-consecutive, not sorted by code point)
+    let mut glyph_chars: Vec<char> = Vec::new();
+    if !wide && !tall && rng.chance(1, 4) {
+        const BASES: [u32; 9] = ['0' as u32, 'A' as u32, 'a' as u32, 'p' as u32, 0xC0, 0x410, 0xFF71, 0x20AC, 0x3B1];
+        let mut guard = 0;
+        while (glyph_chars.len() as u32) < glyphs && guard < 200 {
+            guard += 1;
+            let base = *rng.pick(&BASES) + rng.u32r(0, 3);
+            for k in 0..rng.u32r(1, 6) {
+                if let Some(c) = char::from_u32(base + k) {
+                    if (glyph_chars.len() as u32) < glyphs && !glyph_chars.contains(&c) {
+                        glyph_chars.push(c);
+                    }
+                }
+            }
+        }
+    }
+    let mut next = 'a' as u32;
+    while (glyph_chars.len() as u32) < glyphs {
+        let c = char::from_u32(next).unwrap();
+        if !glyph_chars.contains(&c) {
+            glyph_chars.push(c);
+        }
+        next += 1;
+    }
+    // encoding: all characters listed, or runs of >= 3 consecutive code points as NUL-marked ranges
+    let use_ranges = rng.chance(1, 2);
+    let mut mapping = String::new();
+    let mut i = 0;
+    while i < glyph_chars.len() {
+        let mut j = i;
+        while j + 1 < glyph_chars.len() && glyph_chars[j + 1] as u32 == glyph_chars[j] as u32 + 1 {
+            j += 1;
+        }
+        if use_ranges && j - i >= 2 {
+            mapping.push('\0');
+            mapping.push(glyph_chars[i]);
+            mapping.push(glyph_chars[j]);
+        } else {
+            for c in &glyph_chars[i..=j] {
+                mapping.push(*c);
+            }
+        }
+        i = j + 1;
+    }
+    let closure_mapping = rng.chance(1, 16);
     CustomFontD {
         image_w,
         image_h,
@@ -746,40 +809,34 @@ pub fn gen_custom_font(rng: &mut Rng) -> CustomFontD {
         strike: (rng.u32r(0, ch - 1), 1),
         mapping,
         replacement: rng.usizer(0, glyphs as usize - 1),
+        glyph_chars,
+        closure_mapping,
     }
 }
 
 pub fn gen_custom_string(rng: &mut Rng, f: &CustomFontD) -> String {
-    let glyphs = match f.mapping.strip_prefix('\0') {
-        Some(r) => {
-            let mut c = r.chars();
-            let (a, b) = (c.next().unwrap() as u32, c.next().unwrap() as u32);
-            b - a + 1
-        }
-        None => f.mapping.chars().count() as u32,
-    };
     let n = if rng.chance(1, 40) { rng.usizer(250, 330) } else { rng.usizer(0, 7) };
     let mut s = String::new();
     for _ in 0..n {
         match rng.below(10) {
             0 => s.push('\n'),
             1 => {
-                // unmapped: below/above the mapped range, and code points that alias a mapped
+                // unmapped: next to a mapped character, and code points that alias a mapped
                 // character when the upper bits are lost (c + k * 0x10000, c + 0x100)
-                let a = 'a' as u32;
+                let g = *rng.pick(&f.glyph_chars) as u32;
                 let c = match rng.below(8) {
                     0 | 1 => '?' as u32,
-                    2 => a - 1,
-                    3 => a + glyphs,
-                    4 => a + rng.u32r(0, glyphs - 1) + 0x10000 * rng.u32r(1, 16),
-                    5 => a + glyphs - 1 + 0x10000,
-                    6 => a + rng.u32r(0, glyphs - 1) + 0x100 * rng.u32r(1, 3),
+                    2 => g.saturating_sub(1),
+                    3 => g + 1,
+                    4 | 5 => g + 0x10000 * rng.u32r(1, 16),
+                    6 => g + 0x100 * rng.u32r(1, 3),
                     _ => *rng.pick(&[0x10FFFFu32, 0x20, 0x41, 0xFFFD, 0x1F600, 0x1]),
                 };
-                let c = char::from_u32(c).unwrap_or('?');
-                s.push(if (a..a + glyphs).contains(&(c as u32)) { '?' } else { c });
+                let c = char::from_u32(c).filter(|c| !matches!(c, '\n' | '\r' | '\0')).unwrap_or('?');
+                // (a neighbour of a mapped character may itself be mapped: then it simply is one)
+                s.push(c);
             }
-            _ => s.push(char::from_u32('a' as u32 + rng.u32r(0, glyphs - 1)).unwrap()),
+            _ => s.push(*rng.pick(&f.glyph_chars)),
         }
     }
     s
